@@ -7,6 +7,7 @@ import (
 	"runtime"
 	"strings"
 	"sync"
+	"sync/atomic"
 	"time"
 
 	webp "github.com/deepteams/webp"
@@ -18,6 +19,7 @@ import (
 func init() {
 	suites["sched"] = suiteSched
 	suites["gomaxprocs"] = suiteGomaxprocs
+	replayers["gomaxprocs-decode"] = replayGomaxprocsDecode
 }
 
 type schedCase struct {
@@ -120,7 +122,23 @@ func suiteSched(rep *Report) error {
 		}
 		verifapi.SetSchedHook(hook)
 		runtime.GOMAXPROCS(c.procs)
-		got, err := encodeBytes(img, o)
+		type encRes struct {
+			b   []byte
+			err error
+		}
+		resCh := make(chan encRes, 1)
+		go func() { b, err := encodeBytes(img, o); resCh <- encRes{b, err} }()
+		var got []byte
+		select {
+		case r := <-resCh:
+			got, err = r.b, r.err
+		case <-time.After(180 * time.Second):
+			verifapi.SetSchedHook(nil)
+			rep.Add(Finding{Kind: "property", Property: "C10", Signature: "sched:deadlock",
+				Detail: fmt.Sprintf("lossy Encode did not return within 180 s under a perturbed schedule (workers blocked: lost wake-up or deadlock): %s m=%d procs=%d perturb=%d", imgDesc(c.w, c.h, c.cls, c.acls), c.method, c.procs, c.perturb),
+				Input:  map[string]any{"op": "sched", "case": i, "seed": rep.Seed}})
+			return nil // the blocked goroutines cannot be recovered; stop the suite here
+		}
 		verifapi.SetSchedHook(nil)
 		if err != nil {
 			return err
@@ -167,6 +185,12 @@ func suiteSched(rep *Report) error {
 			Input:  map[string]any{"op": "pipetrace-line", "line": short(lines[i], 20000)}})
 	}
 	rep.Extra["traces_validated"] = okTraces
+
+	// (i-b) direct stress of the wait/signal handshake: a waiter and a signaller race on one row with a
+	// swept phase; every handshake must complete (a lost wake-up parks the waiter forever)
+	if dl := rowSyncStress(rep); dl {
+		return nil
+	}
 
 	// (ii) concurrent public API use vs solo results
 	rounds := 6
@@ -280,16 +304,213 @@ func suiteSched(rep *Report) error {
 	return nil
 }
 
+// genNoiseFlat: rectangular blocks of noise of varying strength (several histogram clusters)
+// separated by large flat areas (histogram tiles entirely covered by long backward references,
+// i.e. tiles in which no token starts).  Bands are 24..120 rows high; a band is strong colour
+// noise, flat, weak noise on its left part only, gradient + noise, or flat again.
+func genNoiseFlat(r *RNG, w, h int) *image.NRGBA {
+	img := image.NewNRGBA(image.Rect(0, 0, w, h))
+	y := 0
+	kind := r.Intn(2) * 2 // start with noise (0) or weak noise (2)
+	for y < h {
+		bh := 24 + r.Intn(97)
+		if y+bh > h || h-(y+bh) < 16 {
+			bh = h - y
+		}
+		flatA := [3]byte{byte(r.Next()), byte(r.Next()), byte(r.Next())}
+		flatB := [3]byte{byte(r.Next()), byte(r.Next()), byte(r.Next())}
+		split := w/4 + r.Intn(w/2+1)
+		base := [3]int{r.Intn(200), r.Intn(200), r.Intn(200)}
+		amp := [3]int{2 + r.Intn(14), 2 + r.Intn(6), 2 + r.Intn(30)}
+		for yy := y; yy < y+bh; yy++ {
+			for x := 0; x < w; x++ {
+				var c [3]byte
+				switch kind {
+				case 0: // strong colour noise
+					c = [3]byte{byte(r.Next()), byte(r.Next()), byte(r.Next())}
+				case 2: // weak noise on the left part, flat on the right
+					if x < split {
+						c = [3]byte{byte(base[0] + r.Intn(amp[0])), byte(base[1] + r.Intn(amp[1])), byte(base[2] + r.Intn(amp[2]))}
+					} else {
+						c = flatB
+					}
+				case 4: // gradient + a little noise
+					c = [3]byte{byte(x * 255 / w), byte(yy*255/h + r.Intn(3)), byte((x + yy) * 255 / (w + h))}
+				default: // 1, 3, 5: flat
+					c = flatA
+				}
+				o := img.PixOffset(x, yy)
+				img.Pix[o], img.Pix[o+1], img.Pix[o+2], img.Pix[o+3] = c[0], c[1], c[2], 0xff
+			}
+		}
+		y += bh
+		kind = (kind + 1) % 6
+	}
+	return img
+}
+
+// genCorrelated: green carries the signal (ramp + noise); red and blue follow green with a gain
+// that changes from region to region, plus a little noise — content for which the lossless
+// encoder selects the cross-colour transform.
+func genCorrelated(r *RNG, w, h int) *image.NRGBA {
+	img := image.NewNRGBA(image.Rect(0, 0, w, h))
+	rx, ry := 24+r.Intn(72), 24+r.Intn(72)
+	bx, by := 16+r.Intn(48), 16+r.Intn(48)
+	sx, sy := 1+r.Intn(4), 1+r.Intn(6)
+	for y := 0; y < h; y++ {
+		for x := 0; x < w; x++ {
+			g := (x*sx+y*sy)/4 + r.Intn(32)
+			kr := 1 + (x/rx+y/ry)%3
+			kb := 1 + (x/bx+2*(y/by))%4
+			o := img.PixOffset(x, y)
+			img.Pix[o] = byte(g*kr/2 + r.Intn(4))
+			img.Pix[o+1] = byte(g)
+			img.Pix[o+2] = byte(g*kb/3 + r.Intn(4))
+			img.Pix[o+3] = 0xff
+		}
+	}
+	return img
+}
+
+var gmpProcs = []int{1, 2, 3, 5, 8, 16, 32}
+
+// gmpDecodeSweep decodes one file under every GOMAXPROCS value; results (pixels or error class)
+// must equal the GOMAXPROCS=1 result.  It returns whether the single-CPU decode succeeded.
+func gmpDecodeSweep(rep *Report, file []byte, desc, sigSuffix string, nontrivial bool, evalKey string) bool {
+	dec := func() string {
+		s, pm := guard(func() string {
+			im, err := webp.Decode(bytes.NewReader(file))
+			if err != nil {
+				return "err"
+			}
+			return "ok " + digest(toNRGBA(im).Pix)
+		})
+		if s == "panic" {
+			return "panic:" + panicClass(pm)
+		}
+		return s
+	}
+	var ref string
+	for _, p := range gmpProcs {
+		runtime.GOMAXPROCS(p)
+		got := dec()
+		if p == 1 {
+			ref = got
+			if !strings.HasPrefix(ref, "ok ") {
+				return false
+			}
+			continue
+		}
+		if got != ref {
+			rep.Add(Finding{Kind: "property", Property: "C12", Signature: "gomaxprocs:decode-pixels-differ:" + sigSuffix,
+				Detail: fmt.Sprintf("Decode result differs between GOMAXPROCS=1 (%s) and %d (%s): %s", ref, p, got, desc),
+				Input:  map[string]any{"op": "gomaxprocs-decode", "procs": p, "desc": desc, "hex": hx(file)}})
+		}
+		rep.Eval(nontrivial, []byte(fmt.Sprintf("%s p=%d", evalKey, p)))
+	}
+	return true
+}
+
+func replayGomaxprocsDecode(in map[string]any) int {
+	defer runtime.GOMAXPROCS(runtime.GOMAXPROCS(0))
+	hs, _ := in["hex"].(string)
+	file := unhx(hs)
+	pf, _ := in["procs"].(float64)
+	procs := []int{int(pf)}
+	if procs[0] < 2 {
+		procs = gmpProcs[1:]
+	}
+	dec := func() string {
+		s, _ := guard(func() string {
+			im, err := webp.Decode(bytes.NewReader(file))
+			if err != nil {
+				return "err"
+			}
+			return "ok " + digest(toNRGBA(im).Pix)
+		})
+		return s
+	}
+	runtime.GOMAXPROCS(1)
+	ref := dec()
+	fmt.Printf("GOMAXPROCS=1:  %s\n", ref)
+	rc := 0
+	for _, p := range procs {
+		runtime.GOMAXPROCS(p)
+		got := dec()
+		fmt.Printf("GOMAXPROCS=%d: %s\n", p, got)
+		if got != ref {
+			rc = 1
+		}
+	}
+	return rc
+}
+
 // suiteGomaxprocs: C12 — same inputs under GOMAXPROCS 1,2,3,5,8,16,32: identical bytes / pixels.
 func suiteGomaxprocs(rep *Report) error {
-	rep.Rule = "Encode (lossy and lossless) and Decode on inputs large enough to pass every parallel threshold (>=4 macroblock rows, >50000 / >=100000 pixels, >=16 tiles, >2 animation frames) plus small ones, under GOMAXPROCS in {1,2,3,5,8,16,32}; outputs must be byte/pixel identical to the GOMAXPROCS=1 result; non-trivial = the input crosses at least one parallel threshold"
+	rep.Rule = "Encode (lossy; lossless with Quality in {25,50,75,80,90,100}) and Decode on inputs large enough to pass every parallel threshold (>=4 macroblock rows, >50000 / >=100000 pixels, >=16 / >=64 histogram tiles, >2 animation frames) plus small ones, under GOMAXPROCS in {1,2,3,5,8,16,32}; image classes: the 8 generic classes, 'noise blocks + large flat areas' (several histogram clusters AND empty histogram tiles; lossless Quality 90/100 so that the histogram remap pass runs), 'correlated colour channels' (the lossless encoder selects the cross-colour transform — confirmed per case with the Lean stream parser, op vp8linfo — at sizes whose rows/GOMAXPROCS is not tile-aligned: 400x404, 512x300, 330x333); decode-only: synthetic VP8L streams (writer SynVP8LCross) with a forced cross-colour transform, tile bits 2..5, optional predictor/subtract-green, >=100000 pixels, prime or odd heights; outputs must be byte/pixel identical to the GOMAXPROCS=1 result; non-trivial = the input crosses at least one parallel threshold (for the cross-colour cases: the stream really contains a cross-colour transform)"
 	defer runtime.GOMAXPROCS(runtime.GOMAXPROCS(0))
-	procs := []int{1, 2, 3, 5, 8, 16, 32}
+	procs := gmpProcs
+	thorough := rep.Tier == "thorough"
+
+	// sweep: encode under every GOMAXPROCS value (bytes must equal the single-CPU bytes) and
+	// decode the single-CPU file under every value (pixels must be equal).
+	sweep := func(caseID string, img image.Image, w, h int, o *webp.EncoderOptions, desc string, nontrivial bool) ([]byte, error) {
+		var ref, refPix []byte
+		for _, p := range procs {
+			runtime.GOMAXPROCS(p)
+			b, err := encodeBytes(img, o)
+			if err != nil {
+				return nil, err
+			}
+			if p == 1 {
+				ref = b
+				im, err := webp.Decode(bytes.NewReader(ref))
+				if err != nil {
+					return nil, err
+				}
+				refPix = toNRGBA(im).Pix
+				continue
+			}
+			if !bytes.Equal(b, ref) {
+				// lossless history dependence (C11) can masquerade: re-encode at p=1 and compare again
+				runtime.GOMAXPROCS(1)
+				b1, _ := encodeBytes(img, o)
+				runtime.GOMAXPROCS(p)
+				cls := "encode-bytes-differ"
+				if !bytes.Equal(b1, ref) {
+					cls = "encode-nondeterministic-at-1cpu"
+				}
+				rep.Add(Finding{Kind: "property", Property: map[string]string{"encode-bytes-differ": "C12", "encode-nondeterministic-at-1cpu": "C11"}[cls],
+					Signature: "gomaxprocs:" + cls + fmt.Sprintf(":lossless=%v", o.Lossless),
+					Detail:    fmt.Sprintf("Encode bytes differ between GOMAXPROCS=1 (%d bytes) and %d (%d bytes): %s", len(ref), p, len(b), desc),
+					Input:     map[string]any{"op": "gomaxprocs", "case": caseID, "seed": rep.Seed, "procs": p, "desc": desc}})
+			}
+			im, err := webp.Decode(bytes.NewReader(ref))
+			if err != nil || !bytes.Equal(toNRGBA(im).Pix, refPix) {
+				rep.Add(Finding{Kind: "property", Property: "C12", Signature: fmt.Sprintf("gomaxprocs:decode-pixels-differ:lossless=%v", o.Lossless),
+					Detail: fmt.Sprintf("Decode result differs between GOMAXPROCS=1 and %d: %s (err=%v)", p, desc, err),
+					Input:  map[string]any{"op": "gomaxprocs-decode", "case": caseID, "seed": rep.Seed, "procs": p, "desc": desc, "hex": hx(ref)}})
+			}
+			rep.Eval(nontrivial, []byte(fmt.Sprintf("%s p=%d", desc, p)))
+		}
+		rep.Count(fmt.Sprintf("lossless=%v", o.Lossless))
+		if o.Lossless {
+			rep.Count(fmt.Sprintf("lossless:q=%v", o.Quality))
+		}
+		return ref, nil
+	}
+
+	// --- (a) generic image classes ---
 	n := 14
-	if rep.Tier == "thorough" {
+	if thorough {
 		n = 300
 	}
 	sizes := [][2]int{{400, 300}, {320, 320}, {64, 64}, {600, 180}, {350, 300}, {1000, 110}, {96, 48}, {512, 256}}
+	type tfProbe struct {
+		desc string
+		file []byte
+	}
+	var tfProbes []tfProbe
 	for i := 0; i < n; i++ {
 		r := NewRNG(rep.Seed, uint64(i))
 		sz := sizes[i%len(sizes)]
@@ -299,53 +520,145 @@ func suiteGomaxprocs(rep *Report) error {
 		o.Lossless = i%2 == 1
 		o.Method = []int{0, 2, 3, 4, 6}[r.Intn(5)]
 		o.Quality = float32([]int{25, 50, 75, 80}[r.Intn(4)])
-		if !o.Lossless {
+		if o.Lossless {
+			// Quality >= 90 switches on the full histogram remap pass; 100 disables entropy-bin combining
+			o.Quality = float32([]int{25, 50, 75, 80, 90, 100}[r.Intn(6)])
+		} else {
 			o.Segments = 1 + r.Intn(4)
 			o.UseSharpYUV = r.Chance(1, 5)
 		}
 		desc := fmt.Sprintf("%s lossless=%v m=%d q=%v sharp=%v", imgDesc(sz[0], sz[1], cls, acls), o.Lossless, o.Method, o.Quality, o.UseSharpYUV)
-		var ref, refPix []byte
-		for _, p := range procs {
-			runtime.GOMAXPROCS(p)
-			b, err := encodeBytes(img, o)
-			if err != nil {
-				return err
-			}
-			if p == 1 {
-				ref = b
-				im, err := webp.Decode(bytes.NewReader(ref))
-				if err != nil {
-					return err
-				}
-				refPix = toNRGBA(im).Pix
-				continue
-			}
-			if !bytes.Equal(b, ref) {
-				// lossless history dependence (C11) can masquerade: re-encode at p=1 and compare again
-				runtime.GOMAXPROCS(1)
-				b1, _ := encodeBytes(img, o)
-				cls := "encode-bytes-differ"
-				if !bytes.Equal(b1, ref) {
-					cls = "encode-nondeterministic-at-1cpu"
-				}
-				rep.Add(Finding{Kind: "property", Property: map[string]string{"encode-bytes-differ": "C12", "encode-nondeterministic-at-1cpu": "C11"}[cls],
-					Signature: "gomaxprocs:" + cls + fmt.Sprintf(":lossless=%v", o.Lossless),
-					Detail:    fmt.Sprintf("Encode bytes differ between GOMAXPROCS=1 (%d bytes) and %d (%d bytes): %s", len(ref), p, len(b), desc),
-					Input:     map[string]any{"op": "gomaxprocs", "case": i, "seed": rep.Seed, "procs": p, "desc": desc}})
-			}
-			im, err := webp.Decode(bytes.NewReader(ref))
-			if err != nil || !bytes.Equal(toNRGBA(im).Pix, refPix) {
-				rep.Add(Finding{Kind: "property", Property: "C12", Signature: fmt.Sprintf("gomaxprocs:decode-pixels-differ:lossless=%v", o.Lossless),
-					Detail: fmt.Sprintf("Decode result differs between GOMAXPROCS=1 and %d: %s (err=%v)", p, desc, err),
-					Input:  map[string]any{"op": "gomaxprocs", "case": i, "seed": rep.Seed, "procs": p, "desc": desc, "hex": hx(ref)}})
-			}
-			rep.Eval(sz[0]*sz[1] > 50000 || (sz[1]+15)/16 >= 4, []byte(fmt.Sprintf("%s p=%d", desc, p)))
+		ref, err := sweep(fmt.Sprint(i), img, sz[0], sz[1], o, desc, sz[0]*sz[1] > 50000 || (sz[1]+15)/16 >= 4)
+		if err != nil {
+			return err
 		}
-		rep.Count(fmt.Sprintf("lossless=%v", o.Lossless))
+		rep.Count("class:generic")
+		if o.Lossless && sz[0]*sz[1] >= 100000 {
+			tfProbes = append(tfProbes, tfProbe{desc, ref})
+		}
 		if i < 3 {
 			rep.Sample(map[string]any{"case": desc, "procs": procs, "bytes": len(ref)})
 		}
 	}
+
+	// --- (b) noise blocks + large flat areas, lossless, Quality 90 / 100 (histogram remap pass, >= 64 tiles) ---
+	nNF := 2
+	if thorough {
+		nNF = 24
+	}
+	for k := 0; k < nNF; k++ {
+		r := NewRNG(rep.Seed, uint64(2500000+k))
+		w, h := 512, 512
+		if k >= 2 {
+			w, h = []int{512, 384, 640, 448}[r.Intn(4)], []int{512, 384, 300, 576}[r.Intn(4)]
+		}
+		img := genNoiseFlat(NewRNG(rep.Seed, uint64(2600000+k)), w, h)
+		o := webp.DefaultOptions()
+		o.Lossless = true
+		o.Quality = []float32{100, 90}[k%2]
+		o.Method = 4
+		if k >= 2 {
+			o.Method = []int{3, 4, 5, 6}[r.Intn(4)]
+			if r.Chance(1, 4) {
+				o.Quality = float32(91 + r.Intn(9))
+			}
+		}
+		desc := fmt.Sprintf("%dx%d/noise-blocks+flat lossless=true m=%d q=%v", w, h, o.Method, o.Quality)
+		ref, err := sweep(fmt.Sprintf("nf%d", k), img, w, h, o, desc, true)
+		if err != nil {
+			return err
+		}
+		rep.Count("class:noise-blocks+flat")
+		tfProbes = append(tfProbes, tfProbe{desc, ref})
+	}
+
+	// --- (c) correlated colour channels, lossless: the encoder uses the cross-colour transform ---
+	corrSizes := [][2]int{{400, 404}, {512, 300}, {330, 333}}
+	nCorr := len(corrSizes)
+	if thorough {
+		nCorr = 30
+	}
+	for k := 0; k < nCorr; k++ {
+		r := NewRNG(rep.Seed, uint64(2700000+k))
+		sz := corrSizes[k%len(corrSizes)]
+		if k >= len(corrSizes) {
+			sz = [2]int{320 + r.Intn(300), 0}
+			sz[1] = 100000/sz[0] + 1 + r.Intn(120)
+		}
+		img := genCorrelated(NewRNG(rep.Seed, uint64(2800000+k)), sz[0], sz[1])
+		o := webp.DefaultOptions()
+		o.Lossless = true
+		o.Quality = float32([]int{75, 50, 90, 25}[k%4])
+		o.Method = []int{4, 3, 4, 6, 2}[k%5]
+		desc := fmt.Sprintf("%dx%d/correlated-channels lossless=true m=%d q=%v", sz[0], sz[1], o.Method, o.Quality)
+		ref, err := sweep(fmt.Sprintf("corr%d", k), img, sz[0], sz[1], o, desc, true)
+		if err != nil {
+			return err
+		}
+		rep.Count("class:correlated-channels")
+		tfProbes = append(tfProbes, tfProbe{desc, ref})
+	}
+
+	// which transforms did the large lossless files really use? (Lean stream parser)
+	{
+		var lines []string
+		for _, t := range tfProbes {
+			lines = append(lines, "vp8linfo "+hx(vp8lPayload(t.file)))
+		}
+		info, err := RunDriver(lines)
+		if err != nil {
+			return err
+		}
+		crossCorr := 0
+		for i, t := range tfProbes {
+			tf := tfClass(info[i])
+			rep.Count("large-lossless:tf:" + tf)
+			if strings.Contains(t.desc, "correlated-channels") {
+				if strings.Contains(tf, "cross") {
+					crossCorr++
+				} else {
+					rep.Notes = append(rep.Notes, "no cross-colour transform in "+t.desc+" ("+short(info[i], 120)+")")
+				}
+			}
+		}
+		rep.Extra["correlated_cases_with_cross_colour"] = crossCorr
+		if crossCorr == 0 {
+			rep.Add(Finding{Kind: "correspondence", Property: "C12", Signature: "gomaxprocs:generator-lost-cross-colour",
+				Detail: "none of the correlated-channel lossless files contains a cross-colour transform any more: the sweep no longer reaches the parallel inverse cross-colour transform through encoder output",
+				Input:  map[string]any{"op": "gomaxprocs", "case": "corr", "seed": rep.Seed}})
+		}
+	}
+
+	// --- (d) decode-only: synthetic VP8L streams with a forced cross-colour transform ---
+	synDims := [][2]int{{400, 251}, {317, 331}, {512, 197}, {1000, 101}, {347, 293}, {640, 157}, {359, 283}, {333, 307}}
+	nSyn := 8
+	if thorough {
+		nSyn = 120
+	}
+	for k := 0; k < nSyn; k++ {
+		d := synDims[k%len(synDims)]
+		crossBits := 2 + k%4
+		ok := false
+		for try := 0; try < 6 && !ok; try++ {
+			r := NewRNG(rep.Seed, uint64(2900000+k*16+try))
+			predBits := 0
+			if r.Chance(1, 2) {
+				predBits = 2 + r.Intn(5)
+			}
+			payload, tf := SynVP8LCross(r, d[0], d[1], crossBits, r.Chance(1, 2), predBits)
+			desc := fmt.Sprintf("syn %dx%d tf=%s (%d bytes)", d[0], d[1], tf, len(payload))
+			ok = gmpDecodeSweep(rep, riff(chunk("VP8L", payload)), desc, "syn-cross", true, fmt.Sprintf("syn %d %d", k, try))
+			if ok {
+				rep.Count(fmt.Sprintf("syn-cross:bits=%d", crossBits))
+				if k < 2 {
+					rep.Sample(map[string]any{"case": desc, "procs": procs})
+				}
+			} else {
+				rep.Count("syn-cross:rejected-at-1cpu")
+			}
+		}
+	}
+
 	// animation: DecodeFramesParallel with > 2 frames
 	for k := 0; k < 3; k++ {
 		var buf bytes.Buffer
@@ -391,4 +704,64 @@ func lossKind(name string) string {
 		return "lossy"
 	}
 	return "other"
+}
+
+// rowSyncStress hammers rowSync.waitFor / signal exactly as the pipeline uses them (monotone done
+// values, final signal(y, n) racing with the waiter's slow path). Returns true on deadlock.
+func rowSyncStress(rep *Report) bool {
+	iters := 60000
+	if rep.Tier == "thorough" {
+		iters = 1500000
+	}
+	runtime.GOMAXPROCS(4)
+	rs := verifapi.NewRowSync(1)
+	done := make(chan struct{})
+	var progress atomic.Int64
+	go func() {
+		defer close(done)
+		spin := 0
+		for i := 0; i < iters; i++ {
+			rs.Reset(0)
+			ready := make(chan struct{})
+			fin := make(chan struct{})
+			go func() {
+				close(ready)
+				rs.WaitFor(0, 3)
+				close(fin)
+			}()
+			<-ready
+			// swept phase: 0..~200 spin iterations between the waiter's start and the signals
+			for k := 0; k < spin; k++ {
+				runtime.Gosched()
+			}
+			spin = (spin + 1) % 7
+			rs.Signal(0, 1)
+			rs.Signal(0, 2)
+			rs.Signal(0, 3)
+			<-fin
+			progress.Add(1)
+		}
+	}()
+	last := int64(-1)
+	for {
+		select {
+		case <-done:
+			rep.CountN("rowsync-handshakes", iters)
+			rep.Eval(true, []byte("rowsync-stress"))
+			if w := rs.Waiters(0); w != 0 {
+				rep.Add(Finding{Kind: "property", Property: "C10", Signature: "rowsync:waiters-not-zero-at-rest",
+					Detail: fmt.Sprintf("waiters counter is %d after all handshakes completed", w), Input: map[string]any{"op": "rowsync-stress"}})
+			}
+			return false
+		case <-time.After(20 * time.Second):
+			cur := progress.Load()
+			if cur == last {
+				rep.Add(Finding{Kind: "property", Property: "C10", Signature: "rowsync:lost-wakeup",
+					Detail: fmt.Sprintf("wait/signal handshake %d of %d never completed: the waiter is parked although done >= needed (lost wake-up)", cur+1, iters),
+					Input:  map[string]any{"op": "rowsync-stress", "handshake": cur + 1}})
+				return true
+			}
+			last = cur
+		}
+	}
 }
